@@ -38,7 +38,7 @@ CODE_ORDERED = ("Crng.Tie.CodeOrdered", ["ordered_eq", "hasher_restored", "accep
 CODE_KEEPSAFE = ("Crng.Tie.CodeKeepSafe", ["add_eq", "getAll_eq", "getAll_after_adds", "getAll_twice"])
 CODE_REWRITER = ("Crng.Tie.CodeRewriter", ["do_literal_eq", "do_not_skips", "do_regex", "do_notRe_precedence", "new_eq", "new_then_do_literal"])
 CODE_TABLEOPS = ("Crng.Tie.CodeTableOps", ["addRoute_eq", "addBlacklist_eq", "addAggregator_eq", "addRewriter_eq", "delBlacklist_eq",
-                                             "delRewriter_eq", "delAggregator_eq", "delRoute_eq", "cut_eq_eraseIdx"])
+                                             "delRewriter_eq", "delAggregator_eq", "delRoute_eq", "cut_eq_eraseIdx", "addDestination_eq", "delDestination_eq"])
 CODE_COMPOSE = ("Crng.Tie.CodeCompose", ["dispatch_dest_sends", "rejected_no_dest_sends", "consumed_iff", "aggTrace_no_dest_send",
                                            "sendAllRoute_dispatch", "sendFirstRoute_dispatch", "destination_match_spec", "baseRoute_match_spec"])
 CODE_READDEST = ("Crng.Tie.CodeReadDest", ["readDestination_eq", "loop_eq", "defaults", "option_step", "unknown_option_rejected", "whileP_congr", "optLoop_pairs"])
